@@ -204,6 +204,14 @@ def run_cluster(chooser, cfg, fault=None, trace=None):
         seen_fp: set[str] = set()
         n_node_events = [0]
 
+        by_name = {n.name: n for n in nodes}
+
+        def inc_of(nm):
+            """Highest incarnation of ``nm`` known to exist: announced in a delivered message, or (fallback,
+            private, only ever makes the check more lenient) the member's own counter."""
+            own = getattr(by_name[nm], "_incarnation", 0)
+            return max(announced[nm], own if isinstance(own, int) else 0)
+
         def is_live(nm, t):
             if victim is None or nm != victim.name:
                 return True
@@ -228,7 +236,7 @@ def run_cluster(chooser, cfg, fault=None, trace=None):
                     view[key] = s
                     timeline.append((t, an, bn, s, via))
                     if s == "DEAD":
-                        dead_inc.setdefault(key, announced[bn])
+                        dead_inc.setdefault(key, inc_of(bn))
                         # clause 1: no member ever marks a live member DEAD
                         ever_down = victim is not None and bn == victim.name and (
                             fd.down_since is not None or fd.up_since > 0)
@@ -241,7 +249,7 @@ def run_cluster(chooser, cfg, fault=None, trace=None):
                                                      f"(while handling {via})"))
                     elif s == "ALIVE" and key in dead_inc:
                         # clause 3: DEAD is not followed by ALIVE without a higher incarnation
-                        if announced[bn] <= dead_inc[key]:
+                        if inc_of(bn) <= dead_inc[key]:
                             fp = f"Membership/dead-then-alive-same-incarnation/via-{via}"
                             if fp not in seen_fp:
                                 seen_fp.add(fp)
@@ -409,9 +417,10 @@ def _explore_job(job):
                                        f"(unowned nondeterminism) cfg={cfg} fault={fault} choices={choices}")
                 st["viol"][fp] = (desc, {"driver": kind, "cfg": list(cfg), "fault": fault,
                                          "choices": list(choices), "deviations": ndev})
-        if len(st["samples"]) < 1 and (nontriv or st["exec"] == 1):
+        if len(st["samples"]) < 1 and nontriv:
             st["samples"].append({"cfg": list(cfg), "fault": fault, "deviations": [(i, c) for i, c in enumerate(choices) if c],
-                                  "view_changes": [(t / SEC, a, b, s) for (t, a, b, s, _v) in tl if s != "ALIVE" or t > 0][:12]})
+                                  "view_changes_after_first_round": [(t / SEC, a, b, s) for (t, a, b, s, _v) in tl
+                                                                     if t > int(round(cfg[1] * SEC))][:12]})
 
     base = Chooser()
     out0 = one(base)
@@ -641,7 +650,10 @@ def main(tier, seed, only=None):
     fams = []
     # -- healthy --------------------------------------------------------
     if quick:
-        fams.append(("healthy-n3", "healthy", configs(3, ALL_I, ALL_S, ALL_P), 2, 8))
+        # (interval 0.5, suspicion 5) is left to the thorough tier: its suspicion timeout (10.5 rounds) cannot
+        # expire inside the 9-round horizon, so at N=3 it behaves like (0.5, 2) unless a timeout is armed early
+        fams.append(("healthy-n3", "healthy",
+                     configs(3, (1.0,), ALL_S, ALL_P) + configs(3, (0.5,), (2.0,), ALL_P), 2, 8))
         fams.append(("healthy-n4", "healthy", configs(4, ALL_I, ALL_S, ALL_P), 1, 1))
         fams.append(("healthy-n4-dev2", "healthy", [(4, 1.0, 2.0, 3.0, 12)], 2, 32))
     else:
